@@ -81,6 +81,10 @@ type Case struct {
 	// the table lock. Consumed one per such transaction; Kind < 0 = none.
 	HookInject []Step `json:"hookInject,omitempty"`
 	Waits      []Wait         `json:"waits,omitempty"`
+	// KeyMode: how an object id becomes the primary key. 0 = index.Uint64
+	// (fixed width); 1 = variable-length byte strings that are prefixes of
+	// each other and include the empty key (see keyOf).
+	KeyMode int `json:"keyMode,omitempty"`
 }
 
 // ------------------------------------------------------------------ object
@@ -106,10 +110,28 @@ func setStatus(o *RObj, s reconciler.Status) *RObj {
 	return o
 }
 
+// keyMode is set per case before the table is created (cases of one test
+// process run one after the other).
+var keyMode atomic.Int32
+
+var varKeys = [][]byte{{}, {0}, {0, 0}, {'a'}, {'a', 0}, {0xff}, {0, 1}, {'a', 'a'}}
+
+// keyOf: the primary key of object id. In mode 1 ids 1..8 get short keys
+// that are prefixes of each other, id 1 the empty key.
+func keyOf(id uint64) index.Key {
+	if keyMode.Load() == 1 {
+		if id >= 1 && int(id) <= len(varKeys) {
+			return index.Key(varKeys[id-1])
+		}
+		return append(index.Key{'k'}, index.Uint64(id)...)
+	}
+	return index.Uint64(id)
+}
+
 var idIndex = statedb.Index[*RObj, uint64]{
 	Name:       "id",
-	FromObject: func(o *RObj) index.KeySet { return index.NewKeySet(index.Uint64(o.ID)) },
-	FromKey:    index.Uint64,
+	FromObject: func(o *RObj) index.KeySet { return index.NewKeySet(keyOf(o.ID)) },
+	FromKey:    keyOf,
 	Unique:     true,
 }
 
@@ -596,6 +618,7 @@ func runInBubble(c Case, check func(w *world) (string, error)) (res result) {
 		),
 		cell.Invoke(func(db *statedb.DB) (err error) {
 			w.db = db
+			keyMode.Store(int32(c.KeyMode))
 			w.table, err = statedb.NewTable[*RObj](db, "robjs", idIndex)
 			if err != nil {
 				return err
@@ -693,6 +716,12 @@ func classify(w *world) ([]string, bool) {
 		perID[c.ID] = append(perID[c.ID], c)
 		if c.Fail {
 			cl["failed_"+c.Op] = true
+			if w.c.KeyMode == 1 && c.ID == 1 {
+				cl["failed_op_on_empty_primary_key"] = true
+			}
+		}
+		if w.c.KeyMode == 1 {
+			cl["variable_length_primary_keys"] = true
 		}
 		if c.Inj > 0 {
 			cl["inject_"+stepNames[c.Inj-1]] = true
